@@ -16,32 +16,39 @@ fn check_iter_fold_ix1<const N: usize>(k: usize) {
     for i in 0..N { rec[(i, 0)] = v[i]; rec[(i, 1)] = i as u8; tar[i] = i as u8; }
     let mut ds = Dataset::new(rec, tar);
     let fs = N / k;
-    // the closure hands back an owned copy of the training view it was given
-    let folds: Vec<(_, _)> = ds
-        .iter_fold(k, |tr| (tr.records().to_owned(), tr.targets().to_owned()))
-        .map(|(o, val)| (o, (val.records().to_owned(), val.targets().to_owned())))
-        .collect();
-    assert!(folds.len() == k);
-    for (f, ((tr_r, tr_t), (va_r, va_t))) in folds.iter().enumerate() {
+    let calls = core::cell::Cell::new(0usize);
+    {
+        // the closure sees the training view of fold f (f = number of earlier calls): every row outside block f
+        // exactly once, each record with its own target
+        let it = ds.iter_fold(k, |tr| {
+            let f = calls.get();
+            calls.set(f + 1);
+            assert!(tr.nsamples() == N - fs && tr.targets().len() == N - fs);
+            let mut seen = [0u8; N];
+            for j in 0..(N - fs) {
+                let id = tr.targets()[j] as usize;
+                assert!(id < N);
+                assert!(tr.records()[(j, 1)] as usize == id && tr.records()[(j, 0)] == v[id]);
+                seen[id] += 1;
+            }
+            for id in 0..N {
+                let in_block = id >= f * fs && id < (f + 1) * fs;
+                assert!(seen[id] == if in_block { 0 } else { 1 });
+            }
+            f
+        });
         // validation part f = consecutive block f of floor(n/k) samples, in order, pairs intact
-        assert!(va_r.nrows() == fs && va_t.len() == fs);
-        for j in 0..fs {
-            let id = f * fs + j;
-            assert!(va_t[j] as usize == id && va_r[(j, 1)] as usize == id && va_r[(j, 0)] == v[id]);
+        let mut nfolds = 0;
+        for (f, val) in it {
+            assert!(f == nfolds);
+            assert!(val.nsamples() == fs && val.targets().len() == fs);
+            for j in 0..fs {
+                let id = f * fs + j;
+                assert!(val.targets()[j] as usize == id && val.records()[(j, 1)] as usize == id && val.records()[(j, 0)] == v[id]);
+            }
+            nfolds += 1;
         }
-        // training part = every other row exactly once, each record with its own target
-        assert!(tr_r.nrows() == N - fs && tr_t.len() == N - fs);
-        let mut seen = [0u8; N];
-        for j in 0..(N - fs) {
-            let id = tr_t[j] as usize;
-            assert!(id < N);
-            assert!(tr_r[(j, 1)] as usize == id && tr_r[(j, 0)] == v[id]);
-            seen[id] += 1;
-        }
-        for id in 0..N {
-            let in_block = id >= f * fs && id < (f + 1) * fs;
-            assert!(seen[id] == if in_block { 0 } else { 1 });
-        }
+        assert!(nfolds == k && calls.get() == k);
     }
     // after the iterator is consumed the dataset holds its original rows in their original order
     for i in 0..N {
@@ -58,29 +65,36 @@ fn check_iter_fold_ix2<const N: usize>(k: usize) {
     for i in 0..N { rec[(i, 0)] = v[i]; tar[(i, 0)] = i as u8; tar[(i, 1)] = v[i]; }
     let mut ds = Dataset::new(rec, tar);
     let fs = N / k;
-    let folds: Vec<(_, _)> = ds
-        .iter_fold(k, |tr| (tr.records().to_owned(), tr.targets().to_owned()))
-        .map(|(o, val)| (o, (val.records().to_owned(), val.targets().to_owned())))
-        .collect();
-    assert!(folds.len() == k);
-    for (f, ((tr_r, tr_t), (va_r, va_t))) in folds.iter().enumerate() {
-        assert!(va_r.nrows() == fs && va_t.nrows() == fs);
-        for j in 0..fs {
-            let id = f * fs + j;
-            assert!(va_t[(j, 0)] as usize == id && va_t[(j, 1)] == v[id] && va_r[(j, 0)] == v[id]);
+    let calls = core::cell::Cell::new(0usize);
+    {
+        let it = ds.iter_fold(k, |tr| {
+            let f = calls.get();
+            calls.set(f + 1);
+            assert!(tr.nsamples() == N - fs && tr.targets().nrows() == N - fs);
+            let mut seen = [0u8; N];
+            for j in 0..(N - fs) {
+                let id = tr.targets()[(j, 0)] as usize;
+                assert!(id < N);
+                assert!(tr.targets()[(j, 1)] == v[id] && tr.records()[(j, 0)] == v[id]);
+                seen[id] += 1;
+            }
+            for id in 0..N {
+                let in_block = id >= f * fs && id < (f + 1) * fs;
+                assert!(seen[id] == if in_block { 0 } else { 1 });
+            }
+            f
+        });
+        let mut nfolds = 0;
+        for (f, val) in it {
+            assert!(f == nfolds);
+            assert!(val.nsamples() == fs && val.targets().nrows() == fs);
+            for j in 0..fs {
+                let id = f * fs + j;
+                assert!(val.targets()[(j, 0)] as usize == id && val.targets()[(j, 1)] == v[id] && val.records()[(j, 0)] == v[id]);
+            }
+            nfolds += 1;
         }
-        assert!(tr_r.nrows() == N - fs && tr_t.nrows() == N - fs);
-        let mut seen = [0u8; N];
-        for j in 0..(N - fs) {
-            let id = tr_t[(j, 0)] as usize;
-            assert!(id < N);
-            assert!(tr_t[(j, 1)] == v[id] && tr_r[(j, 0)] == v[id]);
-            seen[id] += 1;
-        }
-        for id in 0..N {
-            let in_block = id >= f * fs && id < (f + 1) * fs;
-            assert!(seen[id] == if in_block { 0 } else { 1 });
-        }
+        assert!(nfolds == k && calls.get() == k);
     }
     for i in 0..N {
         assert!(ds.records[(i, 0)] == v[i] && ds.targets[(i, 0)] == i as u8 && ds.targets[(i, 1)] == v[i]);
@@ -150,11 +164,21 @@ fn c01_iterfold_mt_n5_k2() {
 #[kani::unwind(6)]
 #[kani::should_panic]
 #[kani::stub(alloc::fmt::format, fmt_stub)]
-fn c01_iterfold_rejects_bad_k() {
-    let k: usize = kani::any();
-    kani::assume(k == 0 || k > 3);
-    let mut ds = Dataset::new(Array2::<u8>::zeros((3, 1)), Array1::<u8>::zeros(3));
-    kani::cover!(k == 0);
-    kani::cover!(k > 3);
-    let _ = ds.iter_fold(k, |tr| tr.nsamples()).count();
+fn c01_iterfold_rejects_k0() {
+    let v: [u8; 3] = kani::any();
+    let mut ds = Dataset::new(Array2::from_shape_vec((3, 1), v.to_vec()).unwrap(), Array1::<u8>::zeros(3));
+    kani::cover!(v[0] != v[1]);
+    let _ = ds.iter_fold(0, |tr| tr.nsamples()).count();
+}
+
+// @unit class=complete tier=quick mem=light bound="" timeout=600 fns=linfa::DatasetBase::iter_fold
+#[kani::proof]
+#[kani::unwind(6)]
+#[kani::should_panic]
+#[kani::stub(alloc::fmt::format, fmt_stub)]
+fn c01_iterfold_rejects_k_above_n() {
+    let v: [u8; 3] = kani::any();
+    let mut ds = Dataset::new(Array2::from_shape_vec((3, 1), v.to_vec()).unwrap(), Array1::<u8>::zeros(3));
+    kani::cover!(v[0] != v[1]);
+    let _ = ds.iter_fold(4, |tr| tr.nsamples()).count();
 }
